@@ -144,6 +144,11 @@ def _tlc(spec, fault, budget, dump=None, invariants=True, workers=4):
            "generated": int(m.group(1)) if m else 0, "distinct": int(m.group(2)) if m else 0, "violated": viol.group(1) if viol else None,
            "trace": trace, "wall_s": round(time.time() - t0, 1), "cfg": cfg, "wd": wd,
            "error": "" if (m or viol or p.returncode == 124) else out[-1500:]}
+    # the checker was stopped from outside (time budget, memory pressure) after it had started exploring and without reporting an
+    # error of its own: an incomplete exploration, not a broken specification
+    if res["error"] and p.returncode in (137, 143, -9, -15, 1) and re.search(r"states generated", out) and not re.search(r"Error:|Exception|is violated|Parse|Semantic", out):
+        res["error"], res["timed_out"], res["stopped_rc"] = "", True, p.returncode
+
     if re.search(r"Assumption .* is false", out):
         res["assume_refused"], res["error"] = True, ""
     if not m:
@@ -254,7 +259,7 @@ def decide_tla(pid, tier, sd):
                     elif spec == "antiMEV":
                         budget = 120 if fault != "fault3" else 30  # 2.6M states with a faulty node: thorough tier
                     else:
-                        budget = 25 if fault == "fault3" else 0   # the three large specs: a BFS prefix only
+                        budget = {"fault3": 25, "good": 150}.get(fault, 0)   # the three large specs: BFS prefixes only (fault-free: deep enough for the view-change paths)
                 else:
                     budget = 900 if small else 2400
                 if fault == "fault3dead2":
